@@ -139,7 +139,7 @@ def run(pid, tier, programs=None, phases=()):
     known = [k for k in C.load_known().get("findings", []) if k.get("property") == pid]
     with C.Lock():
         lean_ok, names = C.lean_phase(res, pid, gen_fn=regen_for(pid), thorough_modules=["Cuckoo.Model.Proto"],
-                                      extra_props={"C01": ["C01Conc", "C01Red", "C01Sync"], "C03": ["C01Red", "C01Sync"], "C04": ["C04Live", "C01Sync"],
+                                      extra_props={"C01": ["C01Conc", "C01Red", "C01Sync", "C01Lin"], "C03": ["C01Red", "C01Sync", "C03Frame"], "C04": ["C04Live", "C01Sync"],
                                                    "C06": ["C06Conc", "C01Red", "C01Sync"]}.get(pid, []))
     if pid == "C03":
         tsan_runs(res, tier, known)
@@ -178,12 +178,15 @@ def run(pid, tier, programs=None, phases=()):
         "rule": "K3: each execution = one client program (2-3 threads x 1-5 calls) run on the real table under the baton scheduler with "
                 "a seeded schedule (non-preemptive + 1..3 preemption points, or uniformly random at every synchronisation event); oracles: "
                 "linearizability (exhaustive search) vs a sequential map, final contents, structural scan, lockset/protocol monitor, lock "
-                "leak probe, deadlock; a sample of traces is replayed through Cuckoo.Proto.accept. distinct_nontrivial = (program, "
+                "leak probe, deadlock; a sample of traces is replayed through Cuckoo.Proto.accept / Fine.accept and the sampled histories through the verified "
+                "checker Cuckoo.Lin.checkFast. distinct_nontrivial = (program, "
                 "configuration) pairs explored",
         "samples": [{"program": p[0], "threads": p[4], "prefill": p[3]} for p in k3.PROGRAMS[:3]],
         "sync_events": out["events"],
         "traces_validated_against_model": out["traces"],
         "traces_rejected": len(out["rejects"]),
+        "histories_decided_by_verified_checker": out.get("histories_checked_in_lean", 0),
+        "oracle_disagreements": out.get("oracle_disagreements", [])[:3],
         "oracle_failures": len(out["failures"]),
         "per_program": out["per_program"],
     })
@@ -191,7 +194,10 @@ def run(pid, tier, programs=None, phases=()):
         "the protocol theorems are about traces accepted by Cuckoo.Proto.accept (and, for the retry bound, rule L of Model/ProtoLive.lean); "
         "K3(i) checks that recorded traces of /repo are accepted by both",
         "the scheduler makes executions sequentially consistent; hardware reordering is outside K3 (memory orders are checked by T-C)",
-        "a lock-protected block is treated as atomic (two-phase locking reduction, not mechanised)",
+        "that one lock-hold is atomic is Props/C01Red.lean (mechanised); that the code of a hold computes the section function of Model/Conc.lean "
+        "and stays within its stripes is tied by K2 / the lockset monitor (Props/C03Frame.lean on the model side), not proved about the C++",
+        "linearizability of a recorded history is decided by the C++ search of the harness on every execution and by the verified checker "
+        "Cuckoo.Lin.checkFast (Props/C01Lin.lean: sound and complete) on a sample of the accepted histories and on every rejected one",
     ]
     return C.finish(res, "proof", "cd lean && lake build Cuckoo.Props.%s && #print axioms audit; K3 exploration + trace replay (check/k3check.py)" % pid)
 
